@@ -1,5 +1,5 @@
 #![no_main]
 mod common;
 use libfuzzer_sys::fuzz_target;
-// C03: the fuzzer-chosen case of variant "opt_vs_noopt_L5" judged by the property's own oracle
+// C03: the fuzzer-chosen case of variant "opt_vs_noopt_L4" judged by the property's own oracle
 fuzz_target!(|data: &[u8]| { common::run("C03", "opt_vs_noopt_L4", data); });
